@@ -508,7 +508,7 @@ class TimeLayer(C.Stream):
     thorough_seconds = 60
     chunk = 500
     corpus = [{"ms": 0}, {"ms": 1}, {"ms": 999}, {"ms": 1000}, {"ms": R.T0}, {"ms": TMAX_MS - 1}, {"x": 1600000000.0005},
-              {"x": 0.0015}, {"x": 1.0004999}, {"x": 1600000000.9995}]
+              {"x": 0.0015}, {"x": 1.0004999}, {"x": 1600000000.9995}, {"x": 4253578702.2205}]
 
     def gen(self, rng, i):
         if rng.random() < 0.5:
@@ -536,7 +536,10 @@ class TimeLayer(C.Stream):
             return []
         x = case["x"]
         k = round(back * 1000)
-        if back != k / 1000.0 or abs(back - x) > 0.000500001:
+        # exact arithmetic on the value of the double x (a float subtraction near 4e9 is itself off by ~5e-7):
+        # the millisecond count k that came back must be a nearest integer to 1000·x (either one on a tie)
+        from decimal import Decimal
+        if back != k / 1000.0 or abs(Decimal(x) * 1000 - k) > Decimal("0.5"):
             return [C.Failure("C09/time/not-nearest-ms", f"{x!r} came back as {obs['back']}")]
         return []
 
